@@ -481,6 +481,38 @@ func (e *Engine) scanSmtDecl(raw string) {
 				}
 			}
 		}
+	case "define-fun":
+		// (define-fun name ( (a S) ... ) Ret body )
+		depth := 0
+		for i := 3; i < len(toks); i++ {
+			if toks[i] == "(" {
+				depth++
+			} else if toks[i] == ")" {
+				depth--
+				if depth == 0 {
+					// return sort: one token or a balanced group
+					j := i + 1
+					if j < len(toks) && toks[j] == "(" {
+						d := 0
+						k := j
+						for ; k < len(toks); k++ {
+							if toks[k] == "(" {
+								d++
+							} else if toks[k] == ")" {
+								d--
+								if d == 0 {
+									break
+								}
+							}
+						}
+						e.smtFuncs[toks[2]] = normSort(strings.Join(toks[j:k+1], " "))
+					} else if j < len(toks) {
+						e.smtFuncs[toks[2]] = toks[j]
+					}
+					break
+				}
+			}
+		}
 	case "declare-heap":
 		// pseudo declaration of a ghost heap component: (declare-heap Name Sort)
 		e.ghost[toks[2]] = normSort(strings.Join(toks[3:len(toks)-1], " "))
